@@ -98,6 +98,20 @@ func GenProject(r *core.Rng, flavour string) Project {
 		fmt.Fprintf(&b, "type Item struct {\n    .Id: i32,\n    .W: i32\n};\n\nfn MakeItem(k: i32) -> Item {\n    return { .Id = k, .W = %d } as Item;\n}\n\n", i+1)
 		body = append(body, fmt.Sprintf("let it := MakeItem(%d);", r.Intn(50)), "acc = acc + it.Id + it.W;")
 
+		// a same-named struct with a method in every imported module; main converts
+		// values of several of them to a local interface (the lowering looks the
+		// concrete type up by bare name across the import aliases)
+		if i != 0 {
+			fmt.Fprintf(&b, "type Box struct {\n    .V: i32\n};\n\nfn (bx: Box) size() -> i32 {\n    return bx.V + %d;\n}\n\nfn NewBox(v: i32) -> Box {\n    return { .V = v } as Box;\n}\n\n", 100*i)
+		} else if len(imports[0]) >= 1 && r.Chance(3, 4) {
+			b.WriteString("type Sized interface {\n    size() -> i32,\n};\n\n")
+			for k, j := range imports[0] {
+				if k >= 3 {
+					break
+				}
+				body = append(body, fmt.Sprintf("let bx%d := %s::NewBox(%d);", j, ref(j), r.Intn(9)), fmt.Sprintf("let sz%d := bx%d as Sized;", j, j), fmt.Sprintf("acc = acc + sz%d.size();", j))
+			}
+		}
 		// interface with several implementations (vtables, type ids)
 		if r.Chance(2, 3) {
 			k := r.Range(2, 4)
